@@ -571,6 +571,7 @@ Lemma resize_big_same_count : forall s id V ids new_len,
   big_content s id V -> stream_ids s id ids -> StoreWf s ->
   MINI_STREAM_CUTOFF <= new_len ->
   new_len <= slen s * lenN ids -> slen s * lenN ids < new_len + slen s ->
+  new_len <= MAX_REGULAR_SECTOR * slen s ->
   exists s',
     resize id new_len s = (s', Ok tt) /\
     big_content s' id (takeN new_len V ++ repeatN 0 (new_len - lenN V)) /\
@@ -578,7 +579,7 @@ Lemma resize_big_same_count : forall s id V ids new_len,
     (forall id' V' ids', id' <> id -> big_content s id' V' -> stream_ids s id' ids' ->
        disjoint ids ids' -> big_content s' id' V' /\ stream_ids s' id' ids').
 Proof.
-  intros s id V ids new_len HB (e0 & He0 & _ & Hc0) Hwf Hnl Hfit Htight.
+  intros s id V ids new_len HB (e0 & He0 & _ & Hc0) Hwf Hnl Hfit Htight Hmax.
   pose proof HB as (e & ids' & He & Ht & Hcut & Hc & Hg & Hle & HV).
   rewrite He in He0. injection He0 as <-. rewrite Hc in Hc0. injection Hc0 as ->.
   pose proof (big_content_len _ _ _ _ HB He) as HlV.
@@ -595,6 +596,9 @@ Proof.
   - unfold resize.
     rewrite (bind_exec _ _ _ _ _ (stream_entry_exec s id e He Ht)).
     cbv beta iota zeta.
+    rewrite (bind_exec _ _ _ _ _ (eq_refl : get s = (s, Ok s))). cbv beta iota zeta.
+    replace (MAX_REGULAR_SECTOR * slen s <? new_len) with false by (symmetry; apply N.ltb_ge; exact Hmax).
+    rewrite (bind_exec _ _ _ _ _ (eq_refl : ret tt s = (s, Ok tt))).
     match goal with |- bind ?m _ s = _ => assert (E : m s = (s1, Ok (d_start e))) end.
     { destruct (d_start e =? END_OF_CHAIN) eqn:E2; [apply N.eqb_eq in E2; contradiction|].
       destruct (d_len e <? MINI_STREAM_CUTOFF) eqn:E3; [lia|].
@@ -636,6 +640,7 @@ Theorem resize_big_shrink_same_count : forall s id V ids new_len,
   big_content s id V -> stream_ids s id ids -> StoreWf s ->
   MINI_STREAM_CUTOFF <= new_len -> new_len < lenN V ->
   slen s * lenN ids < new_len + slen s ->
+  new_len <= MAX_REGULAR_SECTOR * slen s ->
   exists s',
     resize id new_len s = (s', Ok tt) /\
     big_content s' id (takeN new_len V) /\
@@ -643,12 +648,12 @@ Theorem resize_big_shrink_same_count : forall s id V ids new_len,
     (forall id' V' ids', id' <> id -> big_content s id' V' -> stream_ids s id' ids' ->
        disjoint ids ids' -> big_content s' id' V' /\ stream_ids s' id' ids').
 Proof.
-  intros s id V ids new_len HB Hsi Hwf Hnl Hlt Htight.
+  intros s id V ids new_len HB Hsi Hwf Hnl Hlt Htight Hmax.
   pose proof HB as (e & ids' & He & Ht & Hcut & Hc & Hg & Hle & HV).
   pose proof Hsi as (e0 & He0 & _ & Hc0).
   rewrite He in He0. injection He0 as <-. rewrite Hc in Hc0. injection Hc0 as ->.
   pose proof (big_content_len _ _ _ _ HB He) as HlV.
-  destruct (resize_big_same_count s id V ids new_len HB Hsi Hwf Hnl ltac:(blia) Htight)
+  destruct (resize_big_same_count s id V ids new_len HB Hsi Hwf Hnl ltac:(blia) Htight Hmax)
     as (s' & H1 & H2 & H3).
   exists s'. split; [exact H1|]. split; [|exact H3].
   replace (new_len - lenN V) with 0 in H2 by blia.
@@ -661,6 +666,7 @@ Theorem resize_big_grow_zero_within_chain : forall s id V ids new_len,
   big_content s id V -> stream_ids s id ids -> StoreWf s ->
   lenN V < new_len -> new_len <= slen s * lenN ids ->
   slen s * lenN ids < new_len + slen s ->
+  new_len <= MAX_REGULAR_SECTOR * slen s ->
   exists s',
     resize id new_len s = (s', Ok tt) /\
     big_content s' id (V ++ repeatN 0 (new_len - lenN V)) /\
@@ -668,10 +674,10 @@ Theorem resize_big_grow_zero_within_chain : forall s id V ids new_len,
     (forall id' V' ids', id' <> id -> big_content s id' V' -> stream_ids s id' ids' ->
        disjoint ids ids' -> big_content s' id' V' /\ stream_ids s' id' ids').
 Proof.
-  intros s id V ids new_len HB Hsi Hwf Hgt Hfit Htight.
+  intros s id V ids new_len HB Hsi Hwf Hgt Hfit Htight Hmax.
   pose proof HB as (e & ids' & He & Ht & Hcut & Hc & Hg & Hle & HV).
   pose proof (big_content_len _ _ _ _ HB He) as HlV.
-  destruct (resize_big_same_count s id V ids new_len HB Hsi Hwf ltac:(blia) Hfit Htight)
+  destruct (resize_big_same_count s id V ids new_len HB Hsi Hwf ltac:(blia) Hfit Htight Hmax)
     as (s' & H1 & H2 & H3).
   exists s'. split; [exact H1|]. split; [|exact H3].
   rewrite takeN_all in H2 by blia. exact H2.
@@ -683,12 +689,13 @@ Corollary resize_big_grow_zero_tight : forall s id V ids new_len,
   big_content s id V -> stream_ids s id ids -> StoreWf s ->
   slen s * lenN ids < lenN V + slen s ->
   lenN V < new_len -> new_len <= slen s * lenN ids ->
+  new_len <= MAX_REGULAR_SECTOR * slen s ->
   exists s',
     resize id new_len s = (s', Ok tt) /\
     big_content s' id (V ++ repeatN 0 (new_len - lenN V)).
 Proof.
-  intros s id V ids new_len HB Hsi Hwf Htight Hgt Hfit.
-  destruct (resize_big_grow_zero_within_chain s id V ids new_len HB Hsi Hwf Hgt Hfit ltac:(blia))
+  intros s id V ids new_len HB Hsi Hwf Htight Hgt Hfit Hmax.
+  destruct (resize_big_grow_zero_within_chain s id V ids new_len HB Hsi Hwf Hgt Hfit ltac:(blia) Hmax)
     as (s' & H1 & H2 & _).
   exists s'. split; assumption.
 Qed.
@@ -700,6 +707,7 @@ Theorem shrink_then_grow_zero : forall s id V ids m,
   big_content s id V -> stream_ids s id ids -> StoreWf s ->
   MINI_STREAM_CUTOFF <= m -> m < lenN V ->
   slen s * lenN ids < m + slen s ->
+  lenN V <= MAX_REGULAR_SECTOR * slen s ->
   exists s1 s2,
     resize id m s = (s1, Ok tt) /\
     resize id (lenN V) s1 = (s2, Ok tt) /\
@@ -707,18 +715,18 @@ Theorem shrink_then_grow_zero : forall s id V ids m,
     big_content s2 id (takeN m V ++ repeatN 0 (lenN V - m)) /\
     stream_ids s2 id ids /\ free s2 = free s /\ StoreWf s2.
 Proof.
-  intros s id V ids m HB Hsi Hwf Hm Hlt Htight.
+  intros s id V ids m HB Hsi Hwf Hm Hlt Htight Hmax.
   pose proof HB as (e & ids' & He & Ht & Hcut & Hc & Hg & Hle & HV).
   pose proof Hsi as (e0 & He0 & _ & Hc0).
   rewrite He in He0. injection He0 as <-. rewrite Hc in Hc0. injection Hc0 as ->.
   pose proof (big_content_len _ _ _ _ HB He) as HlV.
-  destruct (resize_big_shrink_same_count s id V ids m HB Hsi Hwf Hm Hlt Htight)
+  destruct (resize_big_shrink_same_count s id V ids m HB Hsi Hwf Hm Hlt Htight ltac:(lia))
     as (s1 & R1 & HB1 & Hsi1 & Hwf1 & Hsh1 & _).
   pose proof (same_shape_slen _ _ Hsh1) as Hsl1.
   assert (Hl1 : lenN (takeN m V) = m) by (rewrite lenN_takeN; blia).
   destruct (resize_big_grow_zero_within_chain s1 id (takeN m V) ids (lenN V) HB1 Hsi1 Hwf1)
     as (s2 & R2 & HB2 & Hsi2 & Hwf2 & Hsh2 & _).
-  { blia. } { rewrite Hsl1. blia. } { rewrite Hsl1. blia. }
+  { blia. } { rewrite Hsl1. blia. } { rewrite Hsl1. blia. } { rewrite Hsl1. exact Hmax. }
   rewrite Hl1 in HB2.
   destruct Hsh1 as (_ & _ & _ & _ & _ & F1 & _). destruct Hsh2 as (_ & _ & _ & _ & _ & F2 & _).
   exists s1, s2. csplit; try assumption. congruence.
@@ -1179,6 +1187,7 @@ Lemma resize_big_release : forall s id V ids new_len,
   big_content s id V -> stream_ids s id ids -> StoreWf s ->
   MINI_STREAM_CUTOFF <= new_len ->
   (slen s + new_len - 1) / slen s < lenN ids ->
+  new_len <= MAX_REGULAR_SECTOR * slen s ->
   exists s',
     resize id new_len s = (s', Ok tt) /\
     big_content s' id (takeN new_len V ++ repeatN 0 (new_len - lenN V)) /\
@@ -1189,7 +1198,7 @@ Lemma resize_big_release : forall s id V ids new_len,
        disjoint ids ids' -> big_content s' id' V' /\ stream_ids s' id' ids') /\
     fat_frame s s' id ids new_len.
 Proof.
-  intros s id V ids new_len HB Hsi Hwf Hnl Hlt.
+  intros s id V ids new_len HB Hsi Hwf Hnl Hlt Hmax.
   pose proof (slen_pos s) as Hsp.
   assert (Hnl0 : 0 < new_len) by (rewrite CUTOFF_val in Hnl; lia).
   destruct (ceil_props (slen s) new_len Hsp Hnl0) as [Hc1 Hc2].
@@ -1259,6 +1268,9 @@ Proof.
   - unfold resize.
     rewrite (bind_exec _ _ _ _ _ (stream_entry_exec s id e He Ht)).
     cbv beta iota zeta.
+    rewrite (bind_exec _ _ _ _ _ (eq_refl : get s = (s, Ok s))). cbv beta iota zeta.
+    replace (MAX_REGULAR_SECTOR * slen s <? new_len) with false by (symmetry; apply N.ltb_ge; exact Hmax).
+    rewrite (bind_exec _ _ _ _ _ (eq_refl : ret tt s = (s, Ok tt))).
     match goal with |- bind ?m _ s = _ => assert (E : m s = (s2, Ok (d_start e))) end.
     { destruct (d_start e =? END_OF_CHAIN) eqn:E2; [apply N.eqb_eq in E2; contradiction|].
       destruct (d_len e <? MINI_STREAM_CUTOFF) eqn:E3; [lia|].
@@ -1314,6 +1326,7 @@ Qed.
 Theorem resize_big_no_alloc : forall s id V ids new_len,
   big_content s id V -> stream_ids s id ids -> StoreWf s ->
   MINI_STREAM_CUTOFF <= new_len -> new_len <= slen s * lenN ids ->
+  new_len <= MAX_REGULAR_SECTOR * slen s ->
   exists s',
     resize id new_len s = (s', Ok tt) /\
     big_content s' id (takeN new_len V ++ repeatN 0 (new_len - lenN V)) /\
@@ -1323,7 +1336,7 @@ Theorem resize_big_no_alloc : forall s id V ids new_len,
     (forall id' V' ids', id' <> id -> big_content s id' V' -> stream_ids s id' ids' ->
        disjoint ids ids' -> big_content s' id' V' /\ stream_ids s' id' ids').
 Proof.
-  intros s id V ids new_len HB Hsi Hwf Hnl Hfit.
+  intros s id V ids new_len HB Hsi Hwf Hnl Hfit Hmax.
   pose proof (slen_pos s) as Hsp.
   assert (Hnl0 : 0 < new_len) by (rewrite CUTOFF_val in Hnl; lia).
   destruct (ceil_props (slen s) new_len Hsp Hnl0) as [Hc1 Hc2].
@@ -1331,12 +1344,12 @@ Proof.
   assert (Hn'le : n' <= lenN ids) by nia.
   destruct (N.eq_dec n' (lenN ids)) as [Heq|Hneq].
   { (* same number of sectors *)
-    destruct (resize_big_same_count s id V ids new_len HB Hsi Hwf Hnl Hfit ltac:(nia))
+    destruct (resize_big_same_count s id V ids new_len HB Hsi Hwf Hnl Hfit ltac:(nia) Hmax)
       as (s' & R & HB' & Hsi' & Hwf' & Hsh' & Hoth).
     exists s'. rewrite Heq, (takeN_all _ ids), (dropN_all _ ids), app_nil_r by lia.
     destruct Hsh' as (A1 & _ & _ & _ & _ & A6 & _).
     csplit; try assumption. apply (sw_alloc _ Hwf'). }
-  destruct (resize_big_release s id V ids new_len HB Hsi Hwf Hnl ltac:(fold n'; lia))
+  destruct (resize_big_release s id V ids new_len HB Hsi Hwf Hnl ltac:(fold n'; lia) Hmax)
     as (s' & H1 & H2 & H3 & H4 & H5 & H6 & H7 & _).
   exists s'. fold n' in H3, H4. csplit; assumption.
 Qed.
@@ -1345,6 +1358,7 @@ Qed.
 Theorem resize_big_shrink : forall s id V ids new_len,
   big_content s id V -> stream_ids s id ids -> StoreWf s ->
   MINI_STREAM_CUTOFF <= new_len -> new_len < lenN V ->
+  new_len <= MAX_REGULAR_SECTOR * slen s ->
   exists s',
     resize id new_len s = (s', Ok tt) /\
     big_content s' id (takeN new_len V) /\
@@ -1354,12 +1368,12 @@ Theorem resize_big_shrink : forall s id V ids new_len,
     (forall id' V' ids', id' <> id -> big_content s id' V' -> stream_ids s id' ids' ->
        disjoint ids ids' -> big_content s' id' V' /\ stream_ids s' id' ids').
 Proof.
-  intros s id V ids new_len HB Hsi Hwf Hnl Hlt.
+  intros s id V ids new_len HB Hsi Hwf Hnl Hlt Hmax.
   pose proof HB as (e & ids' & He & Ht & Hcut & Hc & Hg & Hle & HV).
   pose proof Hsi as (e0 & He0 & _ & Hc0).
   rewrite He in He0. injection He0 as <-. rewrite Hc in Hc0. injection Hc0 as ->.
   pose proof (big_content_len _ _ _ _ HB He) as HlV.
-  destruct (resize_big_no_alloc s id V ids new_len HB Hsi Hwf Hnl ltac:(blia))
+  destruct (resize_big_no_alloc s id V ids new_len HB Hsi Hwf Hnl ltac:(blia) Hmax)
     as (s' & H1 & H2 & H3).
   exists s'. split; [exact H1|]. split; [|exact H3].
   replace (new_len - lenN V) with 0 in H2 by blia.
@@ -1613,6 +1627,7 @@ Theorem resize_big_grow_zero_new_sectors : forall s id V ids new_len base nw,
   slen s * lenN ids < new_len ->
   free s = base ++ rev nw ->
   lenN ids + lenN nw = (slen s + new_len - 1) / slen s ->
+  new_len <= MAX_REGULAR_SECTOR * slen s ->
   exists s',
     resize id new_len s = (s', Ok tt) /\
     big_content s' id (V ++ repeatN 0 (new_len - lenN V)) /\
@@ -1621,7 +1636,7 @@ Theorem resize_big_grow_zero_new_sectors : forall s id V ids new_len base nw,
     (forall id' V' ids', id' <> id -> big_content s id' V' -> stream_ids s id' ids' ->
        disjoint ids ids' -> big_content s' id' V' /\ stream_ids s' id' ids').
 Proof.
-  intros s id V ids new_len base nw HB Hsi Hwf Hgt Hfree Hcount.
+  intros s id V ids new_len base nw HB Hsi Hwf Hgt Hfree Hcount Hmax.
   pose proof (slen_pos s) as Hsp.
   pose proof Hsi as (e0 & He0 & _ & Hc0).
   pose proof HB as (e & ids' & He & Ht & Hcut & Hc & Hg & Hle & HV).
@@ -1715,6 +1730,9 @@ Proof.
   - unfold resize.
     rewrite (bind_exec _ _ _ _ _ (stream_entry_exec s id e He Ht)).
     cbv beta iota zeta.
+    rewrite (bind_exec _ _ _ _ _ (eq_refl : get s = (s, Ok s))). cbv beta iota zeta.
+    replace (MAX_REGULAR_SECTOR * slen s <? new_len) with false by (symmetry; apply N.ltb_ge; exact Hmax).
+    rewrite (bind_exec _ _ _ _ _ (eq_refl : ret tt s = (s, Ok tt))).
     match goal with |- bind ?m _ s = _ => assert (E : m s = (s2, Ok (d_start e))) end.
     { destruct (d_start e =? END_OF_CHAIN) eqn:E2; [apply N.eqb_eq in E2; contradiction|].
       destruct (d_len e <? MINI_STREAM_CUTOFF) eqn:E3; [lia|].
@@ -1984,6 +2002,7 @@ Theorem resize_big_grow_zero_append : forall s id V ids new_len k,
   lenN ids + N.of_nat k = (slen s + new_len - 1) / slen s ->
   nsect s + N.of_nat k <= MAX_REGULAR_SECTOR + 1 ->
   (forall j, j < N.of_nat k -> (nsect s + j) mod fat_per_sector s <> 0) ->
+  new_len <= MAX_REGULAR_SECTOR * slen s ->
   exists s',
     resize id new_len s = (s', Ok tt) /\
     big_content s' id (V ++ repeatN 0 (new_len - lenN V)) /\
@@ -1992,7 +2011,7 @@ Theorem resize_big_grow_zero_append : forall s id V ids new_len k,
     (forall id' V' ids', id' <> id -> big_content s id' V' -> stream_ids s id' ids' ->
        disjoint ids ids' -> big_content s' id' V' /\ stream_ids s' id' ids').
 Proof.
-  intros s id V ids new_len k HB Hsi Hwf Hfree Hlen Hdlt Hgt Hcount Hbound Hmod.
+  intros s id V ids new_len k HB Hsi Hwf Hfree Hlen Hdlt Hgt Hcount Hbound Hmod Hmax.
   pose proof (slen_pos s) as Hsp.
   pose proof Hsi as (e0 & He0 & _ & Hc0).
   pose proof HB as (e & ids' & He & Ht & Hcut & Hc & Hg & Hle & HV).
@@ -2079,6 +2098,9 @@ Proof.
   - unfold resize.
     rewrite (bind_exec _ _ _ _ _ (stream_entry_exec s id e He Ht)).
     cbv beta iota zeta.
+    rewrite (bind_exec _ _ _ _ _ (eq_refl : get s = (s, Ok s))). cbv beta iota zeta.
+    replace (MAX_REGULAR_SECTOR * slen s <? new_len) with false by (symmetry; apply N.ltb_ge; exact Hmax).
+    rewrite (bind_exec _ _ _ _ _ (eq_refl : ret tt s = (s, Ok tt))).
     match goal with |- bind ?m _ s = _ => assert (E : m s = (s2, Ok (d_start e))) end.
     { destruct (d_start e =? END_OF_CHAIN) eqn:E2; [apply N.eqb_eq in E2; contradiction|].
       destruct (d_len e <? MINI_STREAM_CUTOFF) eqn:E3; [lia|].
@@ -2144,15 +2166,16 @@ Corollary resize_big_grow_zero_append_FatInv : forall s id V ids new_len k,
   lenN ids + N.of_nat k = (slen s + new_len - 1) / slen s ->
   nsect s + N.of_nat k <= MAX_REGULAR_SECTOR + 1 ->
   (forall j, j < N.of_nat k -> (nsect s + j) mod fat_per_sector s <> 0) ->
+  new_len <= MAX_REGULAR_SECTOR * slen s ->
   exists s',
     resize id new_len s = (s', Ok tt) /\
     big_content s' id (V ++ repeatN 0 (new_len - lenN V)) /\
     stream_ids s' id (ids ++ seqN (nsect s) k) /\
     free s' = [] /\ nsect s' = nsect s + N.of_nat k.
 Proof.
-  intros s id V ids new_len k HB Hsi Hwf Hfree Hinv Hgt Hcount Hbound Hmod.
+  intros s id V ids new_len k HB Hsi Hwf Hfree Hinv Hgt Hcount Hbound Hmod Hmax.
   destruct (resize_big_grow_zero_append s id V ids new_len k HB Hsi Hwf Hfree
-              (Co.fi_len s Hinv) (Co.co_lt s (Co.fi_core s Hinv)) Hgt Hcount Hbound Hmod)
+              (Co.fi_len s Hinv) (Co.co_lt s (Co.fi_core s Hinv)) Hgt Hcount Hbound Hmod Hmax)
     as (s' & H1 & H2 & H3 & H4 & H5 & _).
   exists s'. csplit; assumption.
 Qed.
@@ -2334,6 +2357,7 @@ Theorem shrink_then_grow_zero_general : forall s id V ids m,
   big_content s id V -> stream_ids s id ids -> StoreWf s -> streams_ok s ->
   slen s * lenN ids < lenN V + slen s ->
   MINI_STREAM_CUTOFF <= m -> m < lenN V ->
+  lenN V <= MAX_REGULAR_SECTOR * slen s ->
   exists s1 s2,
     resize id m s = (s1, Ok tt) /\
     resize id (lenN V) s1 = (s2, Ok tt) /\
@@ -2343,7 +2367,7 @@ Theorem shrink_then_grow_zero_general : forall s id V ids m,
                       ++ rev (dropN ((slen s + m - 1) / slen s) ids)) /\
     free s2 = free s.
 Proof.
-  intros s id V ids m HB Hsi Hwf Hok Htight Hm Hlt.
+  intros s id V ids m HB Hsi Hwf Hok Htight Hm Hlt Hmax.
   pose proof (slen_pos s) as Hsp.
   pose proof HB as (e & ids' & He & Ht & Hcut & Hc & Hg & Hle & HV).
   pose proof Hsi as (e0 & He0 & _ & Hc0).
@@ -2354,14 +2378,14 @@ Proof.
   set (n' := (slen s + m - 1) / slen s) in *.
   assert (Hn'le : n' <= lenN ids) by (unfold byte in *; nia).
   destruct (N.eq_dec n' (lenN ids)) as [Heq|Hneq].
-  { destruct (shrink_then_grow_zero s id V ids m HB Hsi Hwf Hm Hlt ltac:(unfold byte in *; nia))
+  { destruct (shrink_then_grow_zero s id V ids m HB Hsi Hwf Hm Hlt ltac:(unfold byte in *; nia) Hmax)
       as (s1 & s2 & R1 & R2 & B1 & B2 & S2 & F2 & _).
     exists s1, s2. rewrite Heq, (takeN_all _ ids), (dropN_all _ ids) by lia.
     cbn [rev]. rewrite app_nil_r. csplit; assumption. }
   assert (Hn'lt : n' < lenN ids) by lia.
   assert (Hbig : big_ids s id ids) by (exists e; csplit; assumption).
   pose proof (path_nodup _ _ _ (WalkProofs.chain_ids_path _ _ _ Hc)) as Hnd.
-  destruct (resize_big_release s id V ids m HB Hsi Hwf Hm Hn'lt)
+  destruct (resize_big_release s id V ids m HB Hsi Hwf Hm Hn'lt ltac:(lia))
     as (s1 & R1 & HB1 & Hsi1 & Hf1 & Hn1 & Wa1 & _ & Hff).
   fold n' in Hsi1, Hf1.
   replace (m - lenN V) with 0 in HB1 by blia.
@@ -2389,6 +2413,7 @@ Proof.
   { rewrite Hsl1, Hlk, WalkProofs.lenN_rev, Hlf.
     replace (n' + (lenN ids - n')) with (lenN ids) by lia.
     apply (N.div_unique _ _ _ (slen s + lenN V - 1 - slen s * lenN ids)); blia. }
+  { rewrite Hsl1. exact Hmax. }
   rewrite Hl1 in HB2.
   exists s1, s2. csplit; assumption.
 Qed.
@@ -2580,6 +2605,7 @@ Module StoreExamples.
     - rewrite CUTOFF_val. lia.
     - unfold Vx. rewrite lenN_repeatN. lia.
     - vm_compute. reflexivity.
+    - unfold Vx. rewrite lenN_repeatN. vm_compute. discriminate.
     - unfold Vx in R2, HB2. rewrite lenN_repeatN in R2, HB2.
       exists s1, s2. split; [exact R1|]. split; [exact R2 | exact HB2].
   Qed.
@@ -2614,6 +2640,7 @@ Module StoreExamples.
       as (s' & R & HB' & Hsi' & Hf & _).
     - rewrite CUTOFF_val. lia.
     - unfold Vx. rewrite lenN_repeatN. lia.
+    - vm_compute. discriminate.
     - exists s'. split; [exact R|]. split; [exact HB'|]. split; [exact Hsi' | exact Hf].
   Qed.
 
@@ -2633,6 +2660,7 @@ Module StoreExamples.
     - vm_compute. reflexivity.
     - exact Hf.
     - vm_compute. reflexivity.
+    - vm_compute. discriminate.
     - replace (lenN (takeN 4096 Vx)) with 4096 in HB'
         by (rewrite lenN_takeN; unfold Vx; rewrite lenN_repeatN; reflexivity).
       exists s'. split; [exact R'|]. split; [exact HB'|]. split; [exact Hsi' | exact Hf'].
@@ -2657,6 +2685,7 @@ Module StoreExamples.
     - vm_compute. reflexivity.
     - rewrite En, MAXREG_val. lia.
     - intros j Hj. rewrite En, Ef. change (N.of_nat 2) with 2 in Hj. lia.
+    - vm_compute. discriminate.
     - unfold Vx in HB'. rewrite lenN_repeatN in HB'. rewrite En in Hsi', Hn'.
       exists s'. split; [exact R|]. split; [exact HB'|]. split; [exact Hsi' | exact Hn'].
   Qed.
@@ -2677,6 +2706,7 @@ Module StoreExamples.
     - unfold Vx. rewrite lenN_repeatN. vm_compute. reflexivity.
     - rewrite CUTOFF_val. lia.
     - unfold Vx. rewrite lenN_repeatN. lia.
+    - unfold Vx. rewrite lenN_repeatN. vm_compute. discriminate.
     - unfold Vx in R2, HB2. rewrite lenN_repeatN in R2, HB2.
       replace ((slen sx + 4096 - 1) / slen sx) with 8 in Hsi2 by (vm_compute; reflexivity).
       assert (Ef : free sx = []) by (vm_compute; reflexivity). rewrite Ef in Hf2.
